@@ -393,6 +393,14 @@ func Run(cs Case, c *vrt.Ctx) {
 			return
 		}
 	}
+	if (op == "modify" || op == "modifyone") && cs.Mod == "wrap" && countKind(cs.Path, "descent") >= 2 {
+		// same root cause as C13-K4: the container the modifier returns is descended into again
+		// and its content modified again; with two or more descents the number of modifier
+		// calls explodes (6 -> 18 -> 65554 -> millions on a five node document) and the call
+		// does not return in any useful time; not executed, counted
+		c.Fail("hang-by-construction", "jp."+cs.Op, desc+": Modify with a modifier that wraps the value, through several descents, does not return (not executed)", "set-descent-container-value")
+		return
+	}
 	data := canon.Copy(before)
 	o := execute(cs, data)
 	if o.pv != nil {
